@@ -107,7 +107,7 @@ class bspline(object):
                 if nbkpts == 1:
                     xspot = [0]
                 else:
-                    xspot = int(nx/(nbkpts-1)) * np.arange(nbkpts, dtype='i4')
+                    xspot = np.minimum(int(nx/(nbkpts-1)) * np.arange(nbkpts, dtype='i4'), nx - 1)
                 bkpt = x[xspot].astype('f')
             else:
                 raise ValueError('No information for bkpts.')
